@@ -73,6 +73,17 @@ def check_case(ctx, case, max_runs):
         for p in probs[:1]:
             ctx.fail(f"{cfg['rule']}: round is not a legal step: {p[0]}", c2,
                      {"problem": p, "outcome": canon.outcome_c(e), "threshold": str(e.threshold), "ref_T": str(ref.T)})
+        # a tie for first among candidates at/above the quota, more of them than seats are left, and no tiebreak requested:
+        # the count must have stopped with ValueError (C01's clause, decided here because only the trace shows such a round)
+        if not probs and cfg.get("tiebreak") is None:
+            for rec in info["per_round"]:
+                if rec["kind"] == "elect" and rec["nchoices"] > 1:
+                    ctx.count("one_by_one_ties_for_first_without_tiebreak")
+                    if rec["seats_left_before"] < rec["nchoices"]:
+                        ctx.fail(f"{cfg['rule']}: candidates tied at/above the quota straddle the last seat, no tiebreak was requested, "
+                                 "and a result was returned instead of ValueError", c2,
+                                 {"tally": canon.scores_c(rec["tally_before"]), "elected": rec["choice"], "seats_left": rec["seats_left_before"]})
+                        break
         # threshold never changes: every transfer call saw the same threshold and the winner's tally
         for (w, fpv, th, bl) in spied:
             ctx.count("transfer_calls_spied")
